@@ -44,6 +44,9 @@ DELIMS = ["\n", "|", "||", "aa", "ab", "\r\n", "é", "aba"]
 ALPHA = ["a", "b", "x", "é", "漢", " "]
 
 
+GC_EACH_RUN = True  # see sim/worker.run_tape
+
+
 def tier_cfg(tier):
     return {"maxlen": 14 if tier == "quick" else 40}
 
